@@ -87,6 +87,60 @@ def response_case(ctx, S, rng):
             return
 
 
+def history_response_case(ctx, S, rng):
+    """observations (response / unitary / Jacobian) interleaved with updates: the protocol must
+    answer for its CURRENT phases at every point of the history"""
+    d = ctx.driver()
+    parity = int(rng.choice([0, 1]))
+    k = int(rng.integers(1, 9))
+    red = gens.phases(rng, k)[0]
+    with core.quiet():
+        p = S.SymmetricQSPProtocol(reduced_phases=red, parity=parity)
+    steps = int(rng.integers(2, 7))
+    trace = [("init", red)]
+    for step in range(steps):
+        obs = str(rng.choice(["re", "im", "unitary", "jac", "none"]))
+        a = float(rng.choice([float(rng.uniform(-1, 1)), 1.0, -1.0, 0.0]))
+        trace.append((obs, a))
+        full = pl(d.ask("sym.hist %d %s" % (parity, rl(F(x) for x in red))).split()[0])
+        n = len(full) - 1
+        if obs in ("re", "im", "unitary"):
+            with core.quiet():
+                if obs == "re":
+                    v = complex(float(p.gen_response_re(np.array([a]))[0]), float("nan"))
+                elif obs == "im":
+                    v = complex(float("nan"), float(p.gen_response_im(np.array([a]))[0]))
+                else:
+                    v = complex(p.gen_unitary(np.array([a]))[0][0, 0])
+            mo = d.ask("resp Wx z 70 %s %s" % (rs(F(a)), rl(full)))
+            val, err = mo.split()
+            mr, mi = core.pcx(val)
+            tol = Fraction(1, 10 ** 12) * (n + 1) + pr(err)
+            bad = (v.real == v.real and abs(F(v.real) - mr) > tol) or (v.imag == v.imag and abs(F(v.imag) - mi) > tol)
+            if bad:
+                ctx.violation("c12:response-after-history:parity=%d" % parity,
+                              "after a history of observations and updates the response is not the Wx product of the CURRENT phases",
+                              {"kind": "history-response", "parity": parity, "trace": trace, "at": a, "python": [v.real, v.imag], "model": [core.fl(mr), core.fl(mi)]})
+                return
+        elif obs == "jac":
+            with core.quiet():
+                f, df = p.gen_jacobian()
+            mo = d.ask("sym.jac %d 70 %s" % (parity, rl(F(x) for x in red))).split()
+            mf = pl(mo[0])
+            if max(abs(F(float(x)) - y) for x, y in zip(np.asarray(f), mf)) > Fraction(1, 10 ** 10) * k:
+                ctx.violation("c12:jacobian-after-history:parity=%d" % parity, "after a history the Jacobian routine does not describe the CURRENT phases",
+                              {"kind": "history-jacobian", "parity": parity, "trace": trace})
+                return
+        red = gens.phases(rng, k if rng.random() < 0.7 else int(rng.integers(1, 9)))[0]
+        k = len(red)
+        trace.append(("update", red))
+        with core.quiet():
+            p.update_reduced_phases(red)
+    ctx.count("history-with-observations:parity=%d" % parity)
+    ctx.case(["histobs", parity, [t if t[0] != "update" else ("update", tuple(t[1])) for t in trace]], True,
+             {"kind": "history with observations", "parity": parity, "steps": steps})
+
+
 def jacobian_case(ctx, S, rng, kmax):
     d = ctx.driver()
     parity = int(rng.choice([0, 1]))
@@ -129,13 +183,15 @@ def run(tier, seed):
         layout_case(ctx, S, ctx.rng)
     for _ in range(60 if q else 800):
         response_case(ctx, S, ctx.rng)
+    for _ in range(60 if q else 800):
+        history_response_case(ctx, S, ctx.rng)
     for _ in range(40 if q else 300):
         jacobian_case(ctx, S, ctx.rng, 12 if q else 30)
     ctx.assumptions = ["Jacobian: the product-rule specification is computed exactly by the model; that it is the true derivative is the product rule "
                        "(stated, not yet machine-checked); numpy.fft inside gen_jacobian is an oracle whose result is compared"]
     return ctx.finish(
         rule="reduced-phase vectors of length 1..60 in 7 patterns, both parities, update histories of length 0..20 (layout, exact); responses at "
-             "generic points and at +-1, 0 against the C10 enclosure; Jacobians for k <= 12 (quick) / 30 against the exact specification; "
+             "generic points and at +-1, 0 against the C10 enclosure, also interleaved with updates (observations between updates); Jacobians for k <= 12 (quick) / 30 against the exact specification; "
              "distinct = distinct (kind, parity, phases, history)")
 
 
